@@ -17,13 +17,13 @@ func match(doc, filter types.Value) (bool, error) {
 	for k, value := range f.Range() {
 		key, ok := k.(types.String)
 		if !ok {
-			return false, errors.WithMessagef(ErrUnsupportedType, "key: %v", k.Interface())
+			return false, errors.WithMessagef(ErrUnsupportedType, "key: %v", types.InterfaceOf(k))
 		}
 
 		if !strings.HasPrefix(key.String(), "$") {
 			d, ok := doc.(types.Map)
 			if !ok {
-				return false, errors.WithMessagef(ErrUnsupportedType, "doc: %v", doc.Interface())
+				return false, errors.WithMessagef(ErrUnsupportedType, "doc: %v", types.InterfaceOf(doc))
 			}
 
 			ok, err := match(d.Get(key), value)
@@ -69,7 +69,7 @@ func match(doc, filter types.Value) (bool, error) {
 		case "$and":
 			vals, ok := value.(types.Slice)
 			if !ok {
-				return false, errors.WithMessagef(ErrUnsupportedType, "value: %v", value.Interface())
+				return false, errors.WithMessagef(ErrUnsupportedType, "value: %v", types.InterfaceOf(value))
 			}
 			for _, sub := range vals.Range() {
 				match, err := match(doc, sub)
@@ -83,7 +83,7 @@ func match(doc, filter types.Value) (bool, error) {
 		case "$or":
 			vals, ok := value.(types.Slice)
 			if !ok {
-				return false, errors.WithMessagef(ErrUnsupportedType, "value: %v", value.Interface())
+				return false, errors.WithMessagef(ErrUnsupportedType, "value: %v", types.InterfaceOf(value))
 			}
 			matched := false
 			for _, sub := range vals.Range() {
